@@ -116,6 +116,22 @@ CHECKS = {
              "(strings) discharges what z3's sequence solver leaves unknown; counter-models come from a length-bounded model search.",
         technique="contract-based deductive verification: AST->SMT string/regex verification conditions (z3 seq + cvc5 strings) on "
                   "the real functions, fold invariant over file lines, modular helper contracts, native replay"),
+    "C05": dict(
+        category="proof",
+        text="Structural and value contracts for statements: Sequence.__init__ keeps exactly the non-empty effects in source order "
+             "for lists of ANY length and any element kind (fold invariant), flatten_list == flat(ls) for any nesting (fold invariant "
+             "+ recursion through its own contract), Sequence/Branch/ForLoop/Assignment il_write emit SEQN/BRANCH/REPEAT/SETL/"
+             "WRITE_REG with arms, order, count and C truth of the condition; selection_stmt / for_loop build if(-else) and "
+             "init; while(c){body; step}; switch/while/do rejected; empty statements change nothing; emit_final_seq_return orders "
+             "immediate initialisers then statements; all 11 assignment operators: exactly one Assignment to the target whose "
+             "stored value equals (T)(target op source) for ALL values over 8x8 types (division decided structurally); chained "
+             "assignment. Refuted instances replay natively: known findings F5c F6 F7 F29 F31 F31b.",
+        design_ref="DESIGN.md section 3, C05",
+        note=TRUST + "SEQN/BRANCH/REPEAT denotation lemma (T-RZIL) and statement nesting by induction (T-IND) are metatheory; "
+             "pending side effects (C06) excluded here; Sequence.il_write and emit_final_seq_return item lists are enumerated "
+             "(lengths 1..6 / 4 shapes).",
+        technique="contract-based deductive verification: fold invariants over abstract lists, structural postconditions and "
+                  "bit-vector value clauses on the real effect classes and statement callbacks, native replay"),
 }
 
 NOT_APPLICABLE = {
